@@ -8,6 +8,8 @@ UNMODELLED = "unmodelled"
 
 
 def matches(c):
+    if c.op.startswith("det"):
+        return (c.impl or "").startswith("same")
     """model = implementation, or the oracle's explicit `unmodelled` marker (non-ASCII input, machine-dependent
     allocation band): no correspondence obligation for that case"""
     return c.model == UNMODELLED or c.model == c.impl
@@ -31,6 +33,7 @@ LEVEL_NOTE = ("Trusted: Lean kernel; harness; compress/gzip, xz, bufio, the file
               "the implementation and compared with the in-memory model). Multi-Phylip streams: phylip_multi; chains of "
               "formats: Props/C11 chain_all_formats. See evidence 'partial'.")
 TECHNIQUE = "Lean 4 proof (induction over rows / chunks for every width) + differential correspondence"
+NEEDS_BINARY = True
 LEAN_MODULES = ["Gv.Props.C02"]
 REQUIRED_THEOREMS = ["Gv.Props.C02." + n for n in ["roundtrip_fasta", "roundtrip_fasta_go", "roundtrip_stockholm",
                                                      "roundtrip_nexus", "roundtrip_nexus_counterexample", "roundtrip_nexus_patched_witness",
@@ -84,7 +87,7 @@ def nontrivial_len(L):
     return any(abs(L - k * w) <= 1 for w in (10, 50, 60, 80) for k in range(1, L // w + 2)) or L > 50
 
 
-def gen(rng, tier):
+def _gen_core(rng, tier):
     thorough = tier != "quick"
     # 1. every format x every writer option x every boundary length
     reps = 1 if not thorough else 4
@@ -224,3 +227,16 @@ def classify(c):
     if "nexus" in fmts and any(q.upper() in G.NEXUS_KEYWORDS for _, q in rows):
         return "nexus-keyword-row"
     return None
+
+
+# ---- command-line glue: a multi-alignment Phylip input must be treated as its alignments one by one (`detmulti`) ----
+MULTI_CMDS = [['reformat', 'phylip'], ['reformat', 'nexus'], ['reformat', 'phylip', '--output-strict']]
+
+
+def gen(rng, tier):
+    from driver import multigen
+    for c in _gen_core(rng, tier):
+        yield c
+    for _ in range(2 if tier == "quick" else 20):
+        for argv in MULTI_CMDS:
+            yield multigen.multi_case(multigen.alignments(rng), argv, "cli-multi-" + "-".join(argv[:2]))
